@@ -65,12 +65,11 @@ Defs      == WholeUnit.a[2].a
 SpecPos(ps, c) == LET S == {j \in 1..Len(ps) : ps[j][1] = c} IN IF S = {} THEN -1 ELSE ps[CHOOSE j \in S : TRUE][2] - 1
 RhsOf(c) == LET S == {j \in 1..Len(Defs) : Defs[j].a[1] = Node("Const", <<I(c)>>)} IN Defs[CHOOSE j \in S : TRUE].a[2]
 
-Verdicts ==
+(* d, du, ps: Decode(Ev.bytes), Decode(UnitBytes), ConstPositions(UnitBytes) -- bound once by TrCase (TLC evaluates a LET
+   definition again at every use, which made the positions of a 257-constant unit quadratic) *)
+Verdicts(d, du, ps) ==
   IF Ev.fault # "" THEN {"fault in the " \o Ev.fault}
-  ELSE LET d  == Decode(Ev.bytes)
-           du == Decode(UnitBytes)
-           ps == ConstPositions(UnitBytes)
-       IN {w \in {"denotes: the bytes written do not decode to the node", "readers: the tree reader returns another node",
+  ELSE    {w \in {"denotes: the bytes written do not decode to the node", "readers: the tree reader returns another node",
                   "readers: the tree reader stops elsewhere", "readers: the header reader returns other fields",
                   "positions: count of constants", "positions: the skipping reader finds the constants elsewhere",
                   "positions: no constant value at the position", "readers: the formats of the unit"} :
@@ -92,7 +91,8 @@ TrCase ==
   /\ back' = IF Ev.fault # "" THEN None
              ELSE [tree |-> Ev.back, tend |-> Ev.tend + 1,
                    send |-> IF Ev.unit \/ Ev.constc # 2 THEN Ev.tend + 1 ELSE Ev.posv[2] - 2 - Ev.posv[1] + 1, hdr |-> Ev.hdr]
-  /\ Report(Verdicts)
+  /\ IF Ev.fault # "" THEN Report(Verdicts(<<>>, <<>>, <<>>))
+     ELSE \E d \in {Decode(Ev.bytes)} : \E du \in {Decode(UnitBytes)} : \E ps \in {ConstPositions(UnitBytes)} : Report(Verdicts(d, du, ps))
   /\ IF Ev.fault = "" /\ Admissible(Ev.node, AsWritten(Ev.node)) /\ Ev.bytes # Encode(Ev.node, AsWritten(Ev.node))
      THEN PrintT("DRIFT " \o ToJson([l |-> l, id |-> Ev.id, format |-> FormatAt(Ev.bytes, 1), transcribed |-> AsWritten(Ev.node)]))
      ELSE TRUE
